@@ -22,6 +22,7 @@ import (
 	ethcrypto "github.com/ethereum/go-ethereum/crypto"
 	"github.com/tellor-io/layer/app"
 	disputetypes "github.com/tellor-io/layer/x/dispute/types"
+	minttypes "github.com/tellor-io/layer/x/mint/types"
 	oracletypes "github.com/tellor-io/layer/x/oracle/types"
 	rante "github.com/tellor-io/layer/x/reporter/ante"
 	protov2 "google.golang.org/protobuf/proto"
@@ -86,7 +87,7 @@ func (c *Config) defaults() {
 		c.ValStakes = []int64{5000, 3000, 2000}
 	}
 	if c.NumUsers == 0 {
-		c.NumUsers = 6
+		c.NumUsers = 7
 	}
 	if c.UserBalance == 0 {
 		c.UserBalance = 100_000 * TRB
@@ -131,6 +132,9 @@ type World struct {
 	// Minted accumulates what the mint monitor has seen minted since MintSince.
 	Minted    math.Int
 	MintSince time.Time
+	// MintInitAt: block time at which the monitor saw MsgInit accepted; MintRefPrev: the monitor's own mint clock.
+	MintInitAt  time.Time
+	MintRefPrev *time.Time
 	// FromBondShort accumulates, per known finding C04/F1, how much less than the recorded fee
 	// fee-from-stake payments actually moved into the dispute account.
 	FromBondShort math.Int
@@ -147,6 +151,7 @@ type BlockPhases struct {
 	SupplyAfterEnd, TBRAfterEnd, FeeDistAfterEnd       math.Int
 	SupplyAfterBegin, TBRAfterBegin, FeeDistAfterBegin math.Int
 	BeginEvents                                        []abci.Event
+	MintRefBefore                                      *time.Time // the harness' mint clock as of before this block's BeginBlock
 }
 
 // ReceivedInBegin sums the bank "coin_received" events of the last BeginBlock for one receiver.
@@ -281,15 +286,19 @@ func NewWorld(cfg Config) *World {
 	var vals []stakingtypes.Validator
 	var dels []stakingtypes.Delegation
 	var signing []slashingtypes.SigningInfo
-	bonded := math.ZeroInt()
+	bonded, notBonded := math.ZeroInt(), math.ZeroInt()
 	for i, v := range w.Vals {
 		pkAny, err := codectypes.NewAnyWithValue(v.ConsPriv.PubKey())
 		if err != nil {
 			panic(err)
 		}
 		tok := math.NewInt(cfg.ValStakes[i]).MulRaw(TRB)
+		status := stakingtypes.Bonded
+		if uint32(i) >= cfg.MaxValidators { // stakes are listed in descending order: the rest starts outside the bonded set
+			status = stakingtypes.Unbonded
+		}
 		vals = append(vals, stakingtypes.Validator{
-			OperatorAddress: v.Val.String(), ConsensusPubkey: pkAny, Status: stakingtypes.Bonded,
+			OperatorAddress: v.Val.String(), ConsensusPubkey: pkAny, Status: status,
 			Tokens: tok, DelegatorShares: math.LegacyNewDecFromInt(tok),
 			Description:       stakingtypes.Description{Moniker: v.Name},
 			UnbondingTime:     time.Unix(0, 0).UTC(),
@@ -297,7 +306,11 @@ func NewWorld(cfg Config) *World {
 			MinSelfDelegation: math.OneInt(),
 		})
 		dels = append(dels, stakingtypes.NewDelegation(v.Acc.String(), v.Val.String(), math.LegacyNewDecFromInt(tok)))
-		bonded = bonded.Add(tok)
+		if status == stakingtypes.Bonded {
+			bonded = bonded.Add(tok)
+		} else {
+			notBonded = notBonded.Add(tok)
+		}
 		cons := sdk.ConsAddress(v.ConsPriv.PubKey().Address())
 		signing = append(signing, slashingtypes.SigningInfo{
 			Address:              cons.String(),
@@ -313,6 +326,13 @@ func NewWorld(cfg Config) *World {
 		Coins:   sdk.NewCoins(sdk.NewCoin(Denom, bonded)),
 	})
 	supply = supply.Add(bonded)
+	if notBonded.IsPositive() {
+		bals = append(bals, banktypes.Balance{
+			Address: authtypes.NewModuleAddress(stakingtypes.NotBondedPoolName).String(),
+			Coins:   sdk.NewCoins(sdk.NewCoin(Denom, notBonded)),
+		})
+		supply = supply.Add(notBonded)
+	}
 	var bankGen banktypes.GenesisState
 	cdc.MustUnmarshalJSON(gs[banktypes.ModuleName], &bankGen)
 	bankGen.Balances = bals
@@ -453,6 +473,11 @@ func (w *World) Tx(msgs ...sdk.Msg) (res TxResult) {
 	}
 	write()
 	w.events = append(w.events, cc.EventManager().ABCIEvents()...)
+	for _, m := range msgs {
+		if _, ok := m.(*minttypes.MsgInit); ok && w.MintInitAt.IsZero() {
+			w.MintInitAt = w.Ctx.BlockTime() // governance started minting in this block
+		}
+	}
 	return TxResult{OK: true}
 }
 
@@ -504,6 +529,12 @@ func (w *World) Block(dt time.Duration, injected ...[]byte) bool {
 	hdr.Time = t
 	w.Ctx = w.Ctx.WithBlockHeader(hdr).WithHeaderInfo(headerInfo(h, t)).WithEventManager(sdk.NewEventManager())
 	w.setVotes()
+	w.LB.MintRefBefore = nil
+	if !w.MintInitAt.IsZero() {
+		w.LB.MintRefBefore = w.MintRefPrev
+		tt := t
+		w.MintRefPrev = &tt
+	}
 	req := &abci.RequestFinalizeBlock{Height: h, Time: t, Txs: injected}
 	if !w.guard("pre", func() error { _, err := w.App.VerifPreBlocker()(w.Ctx, req); return err }) {
 		return false
